@@ -312,6 +312,9 @@ class Exec:
     def safety(self, st, what, node, goal):
         self.vcs.append(VC(f'safety:{what}@{self.ordn(node)}', st.pc + st.guards, goal, 'safety',
                            path=list(st.trace)))
+        g_ = z3.simplify(goal) if isinstance(goal, z3.ExprRef) else goal
+        if g_ is False or (isinstance(g_, z3.ExprRef) and z3.is_false(g_)):
+            return        # fails for certain: reported above; NOT assumed (assuming False would make everything after it vacuous)
         st.assume(goal)   # execution continues only when the operation did not raise
 
     def feasible(self, st, full=False):
